@@ -15,24 +15,16 @@
 #include "celeritas/random/distribution/UniformBoxDistribution.hh"
 #include "celeritas/random/distribution/RejectionSampler.hh"
 #include "celeritas/random/Selector.hh"
+#include "celeritas/em/distribution/TsaiUrbanDistribution.hh"
 
 using namespace celeritas;
 using verif::hex;
 
-int main()
+// one sample of distribution `kind` with parameters p; false = unknown kind
+static bool sample_once(std::string const& kind, std::vector<double> const& p,
+                        verif::ReplayEngine& rng, std::vector<double>& out)
 {
-    std::string line;
-    while (std::getline(std::cin, line))
-    {
-        if (line.empty()) continue;
-        std::istringstream is(line);
-        std::string kind; is >> kind;
-        std::vector<double> p = verif::rdvec(is);
-        verif::ReplayEngine rng(verif::rdvec(is));
-        std::vector<double> out;
-        try
-        {
-            if (kind == "uniform") { UniformRealDistribution<double> d(p[0], p[1]); out.push_back(d(rng)); }
+    if (kind == "uniform") { UniformRealDistribution<double> d(p[0], p[1]); out.push_back(d(rng)); }
             else if (kind == "exponential") { ExponentialDistribution<double> d(p[0]); out.push_back(d(rng)); }
             else if (kind == "bernoulli") { BernoulliDistribution d(p[0]); out.push_back(d(rng) ? 1 : 0); }
             else if (kind == "bernoulli2") { BernoulliDistribution d(p[0], p[1]); out.push_back(d(rng) ? 1 : 0); }
@@ -58,9 +50,52 @@ int main()
                 auto sel = make_selector([&w](size_type i) { return w[i]; }, size_type(w.size()), p[0]);
                 out.push_back(static_cast<double>(sel(rng)));
             }
-            else { std::cout << "unknown " << kind << "\n"; continue; }
+            else if (kind == "tsaiurban")
+            {
+                TsaiUrbanDistribution d(units::MevEnergy{p[0]}, units::MevMass{p[1]});
+                out.push_back(d(rng));
+            }
+            else if (kind == "normalN")
+            {   // p = mean, sd, n: n successive samples (bulk statistics)
+                NormalDistribution<double> d(p[0], p[1]);
+                for (int i = 0; i < int(p[2]); ++i) out.push_back(d(rng));
+            }
+            else { return false; }
+    return true;
+}
+
+int main()
+{
+    std::string line;
+    while (std::getline(std::cin, line))
+    {
+        if (line.empty()) continue;
+        std::istringstream is(line);
+        std::string kind; is >> kind;
+        std::vector<double> p = verif::rdvec(is);
+        // "bulk:<kind>": last parameter = number of samples drawn from one engine
+        // (supporting statistical test); output "ok <consumed> <n> v..."
+        std::size_t nsamp = 1;
+        bool bulk = kind.rfind("bulk:", 0) == 0;
+        if (bulk) { kind = kind.substr(5); nsamp = static_cast<std::size_t>(p.back()); p.pop_back(); }
+        verif::ReplayEngine rng(verif::rdvec(is));
+        std::vector<double> out;
+        try
+        {
+            bool known = true;
+            for (std::size_t i = 0; i < nsamp && known; ++i)
+            {
+                std::vector<double> one;
+                known = sample_once(kind, p, rng, one);
+                if (bulk) { if (!one.empty()) out.push_back(one[0]); }
+                else out = one;
+            }
+            if (!known) { std::cout << "unknown " << kind << "\n"; continue; }
         }
-        catch (verif::StreamExhausted const&) { std::cout << "exhausted\n"; continue; }
+        catch (verif::StreamExhausted const&)
+        {
+            if (!bulk) { std::cout << "exhausted\n"; continue; }
+        }
         std::cout << "ok " << rng.consumed() << " " << out.size();
         for (double v : out) std::cout << " " << hex(v);
         std::cout << "\n";
